@@ -234,6 +234,20 @@ func layout(pos string, pw *preWorld, probe pb.Transaction) (with, without []pb.
 		wu := warmup(pw)
 		return append(append([]pb.Transaction{}, wu...), probe), wu, len(wu)
 	}
+	if strings.HasPrefix(pos, "at-") { // at-<i>-of-<n>: the probe at index i of a block of n transactions
+		var i, n int
+		fmt.Sscanf(pos, "at-%d-of-%d", &i, &n)
+		var fill []pb.Transaction
+		for j := 0; j < n-1; j++ {
+			if j%2 == 0 {
+				fill = append(fill, w.TransferTx(fix.KUser, fix.KUser2, "1"))
+			} else {
+				fill = append(fill, w.InvokeTx(fix.KUser2, constant.StoreContractAddr, "Set", pb.String(fmt.Sprintf("valid%d", j)), pb.String("1")))
+			}
+		}
+		with = append(append(append([]pb.Transaction{}, fill[:i]...), probe), fill[i:]...)
+		return with, fill, i
+	}
 	v1 := w.TransferTx(fix.KUser, fix.KUser2, "3")
 	v2 := w.InvokeTx(fix.KUser2, constant.StoreContractAddr, "Set", pb.String("valid"), pb.String("1"))
 	switch pos {
